@@ -9,6 +9,7 @@ require (
 	github.com/ozontech/insane-json v0.1.9
 	github.com/prometheus/client_golang v1.16.0
 	go.uber.org/zap v1.27.0
+	k8s.io/api v0.34.2
 )
 
 require (
@@ -86,7 +87,6 @@ require (
 	gopkg.in/inf.v0 v0.9.1 // indirect
 	gopkg.in/yaml.v2 v2.4.0 // indirect
 	gopkg.in/yaml.v3 v3.0.1 // indirect
-	k8s.io/api v0.34.2 // indirect
 	k8s.io/apimachinery v0.34.2 // indirect
 	k8s.io/client-go v0.34.2 // indirect
 	k8s.io/klog/v2 v2.130.1 // indirect
